@@ -147,12 +147,12 @@ fn norm(s: &str, nul: bool) -> String {
 }
 
 /// lol-html's read accessors (`Comment::text`, `Attribute::value`, ...) decode with
-/// `Encoding::decode`, i.e. WITH BOM sniffing (base/bytes.rs:114). The lol-html side of the oracle
-/// compares with what those accessors return for the bytes that were written (see docs/pkg-esc.md,
-/// "BOM sniffing in read accessors"); the html5ever side compares with the string itself.
+/// `Encoding::decode_without_bom_handling` (base/bytes.rs `as_string`; the BOM-sniffing `decode` they used
+/// before was a finding, repaired). The lol-html side of the oracle compares with what an exact decode
+/// returns for the bytes that were written; the html5ever side compares with the string itself.
 fn readback(enc: &'static Encoding, s: &str) -> String {
     let (b, _, _) = enc.encode(s);
-    enc.decode(&b).0.into_owned()
+    enc.decode_without_bom_handling(&b).0.into_owned()
 }
 
 fn lower(s: &str) -> String {
@@ -368,7 +368,7 @@ pub fn run(line: &str) -> String {
                 let escv = {
                     let (vb, _, _) = enc.encode(&v);
                     let eb = lol_html::verif_hooks::escape_double_quotes_only(&vb);
-                    enc.decode(&eb).0.into_owned()
+                    enc.decode_without_bom_handling(&eb).0.into_owned()
                 };
                 let mut want: Vec<(String, String)> = attrs.iter().map(|(a, b)| (a.to_string(), b.to_string())).collect();
                 let mut want_h5 = want.clone();
